@@ -363,6 +363,7 @@ def v1TxnChecks (ms : Mid) (t : Txn1) (parentBlockId : Id) (maxWeight : Nat) : V
   if ms.base.child ≥ ms.base.P.v2Require then reject "v1 transactions are not allowed after v2 hardfork is complete"
   else do
     validateCurrencyOverflow t
+    validateTaxPool ms t
     if t.weight > maxWeight then reject "transaction exceeds maximum block weight"
     else do
       validateMinimumValues t
@@ -379,12 +380,12 @@ theorem validateTransaction_eq (ms : Mid) (t : Txn1) (pid : Id) (maxWeight : Nat
 
 theorem validateTransaction_ok_iff (ms : Mid) (t : Txn1) (pid : Id) (maxWeight : Nat) :
     validateTransaction ms t pid maxWeight = .ok () ↔
-      (ms.base.child < ms.base.P.v2Require ∧ validateCurrencyOverflow t = .ok () ∧ t.weight ≤ maxWeight ∧
+      (ms.base.child < ms.base.P.v2Require ∧ (validateCurrencyOverflow t = .ok () ∧ validateTaxPool ms t = .ok ()) ∧ t.weight ≤ maxWeight ∧
        validateMinimumValues t = .ok () ∧ validateSiacoins ms t = .ok () ∧ validateSiafunds ms t = .ok () ∧
        validateFileContracts ms t pid = .ok () ∧ validateArbitraryData ms t = .ok () ∧
        validateSignatures t = .ok ()) := by
   rw [validateTransaction_eq]
   unfold v1TxnChecks
-  simp only [ite_reject_ok_iff, seq_unit_ok_iff, Nat.not_lt, Nat.not_le, ge_iff_le, gt_iff_lt]
+  simp only [ite_reject_ok_iff, seq_unit_ok_iff, Nat.not_lt, Nat.not_le, ge_iff_le, gt_iff_lt, and_assoc]
 
 end Sia.Ledger
